@@ -253,3 +253,39 @@ Lemma iter_S {A} n (f : A -> A) x : iter (S n) f x = f (iter n f x).
 Proof. reflexivity. Qed.
 Lemma iter_shift {A} n (f : A -> A) x : iter n f (f x) = f (iter n f x).
 Proof. induction n; cbn; auto. rewrite IHn. reflexivity. Qed.
+
+(* ---------- more algebra ---------- *)
+Lemma qpow2 x : qpow x 2 == x * x.
+Proof. unfold qpow. simpl. ring. Qed.
+Lemma dot_vadd_r a b c : length b = length c -> dot a (vadd b c) == dot a b + dot a c.
+Proof.
+  vunf. revert b c; induction a as [|x a IH]; intros [|y b] [|z c] H; lcbn; try discriminate; try ring.
+  rewrite IH by lia. ring.
+Qed.
+Lemma nth_app_unitv k x (l : vec) i : (i <= k)%nat -> nth i (unitv k x ++ l) 0 = nth i (unitv k x) 0.
+Proof. intros H. apply app_nth1. rewrite unitv_length. lia. Qed.
+Lemma nth_unitv_k k x : nth k (unitv k x) 0 = x.
+Proof. unfold unitv. rewrite nth_unit, Nat.eqb_refl. reflexivity. Qed.
+Lemma nth_unitv_lt k x j : (j < k)%nat -> nth j (unitv k x) 0 = 0.
+Proof. intros H. unfold unitv. rewrite nth_unit. replace (Nat.eqb j k) with false; auto. symmetry; apply Nat.eqb_neq; lia. Qed.
+
+(* ---------- congruences and powers ---------- *)
+Lemma dot_veq_r a b c : veq b c -> dot a b == dot a c.
+Proof.
+  intros H. revert a. induction H as [|x y b c Hxy Hbc IH]; intros [|z a]; vunf; lcbn; try reflexivity.
+  specialize (IH a). vunf. rewrite IH, Hxy. reflexivity.
+Qed.
+Lemma qpow_pred theta k : ~ theta == 0 -> qpow theta (Z.of_nat k - 1) * theta == qpow theta (Z.of_nat k).
+Proof.
+  intros H. unfold qpow.
+  replace (Z.of_nat k) with ((Z.of_nat k - 1) + 1)%Z at 2 by lia.
+  rewrite Qpower_plus by auto. simpl. reflexivity.
+Qed.
+Lemma smul_veq c a b : veq a b -> veq (smul c a) (smul c b).
+Proof. induction 1; vunf; lcbn; constructor; auto. rewrite H. reflexivity. Qed.
+Lemma smul_unitv c k x : veq (smul c (unitv k x)) (unitv k (c * x)).
+Proof.
+  apply veq_unitv; [veclen| |].
+  - intros i Hi. rewrite nth_smul by veclen. rewrite nth_unitv_lt by lia. ring.
+  - rewrite nth_smul by veclen. rewrite nth_unitv_k. reflexivity.
+Qed.
